@@ -33,10 +33,15 @@ class Rule:
         self.undecided_items = []  # (key, where, why)
         self.observations = []
         self.floor = 0
+        self._seen_ok = set()
 
     # an obligation that was enumerated and discharged on this run
     def ok(self, key, where="", detail=None):
-        self.ok_items.append((norm_key(key), where, detail))
+        k = norm_key(key)
+        if k in self._seen_ok:
+            return
+        self._seen_ok.add(k)
+        self.ok_items.append((k, where, detail))
 
     def violation(self, key, where, msg, expected=None, observed=None):
         self.violations.append({
